@@ -1062,7 +1062,19 @@ def c33(idx: Index, rep: Report, tier: str) -> None:
             ne += 1
             ver = [k.value for k in r.value.keywords if k.arg == "version"] + list(r.value.args[1:2])
             ok = bool(ver) and isinstance(ver[0], ast.Name) and ver[0].id in unpacked
-            rep.check(ok, rule_e, f"{mname}: the result is built with the version equalize_versions returned", m.loc(r), construct=norm(r)[:90], detail="" if ok else "the result's version is not the common version of the operands (it may be None, i.e. inferred from the surviving features): an intersection that keeps only version-1 features is then a version-1 kind whose deprecated features count again, so it is not below its operands and differs from the same intersection taken with declared versions", function=m.qualname)
+            strict = True
+            if ver and not ok and isinstance(ver[0], ast.Call) and isinstance(ver[0].func, ast.Attribute) and norm(ver[0].func.value) in ("self", "ProblemKind", "oth") and ver[0].func.attr in pk.methods:
+                # the version goes through a helper of the class: every answer of the helper must be the common version
+                h = pk.methods[ver[0].func.attr]
+                formal = [a.arg for a in h.node.args.args if a.arg not in ("self", "cls")]
+                passed = {formal[i]: a for i, a in enumerate(ver[0].args) if i < len(formal)}
+                passed.update({k.arg: k.value for k in ver[0].keywords if k.arg})
+                common = {p_ for p_, a in passed.items() if isinstance(a, ast.Name) and a.id in unpacked}
+                rets = [x for x in walk_no_nested(h.node) if isinstance(x, ast.Return)]
+                ok = bool(rets) and all(isinstance(x.value, ast.Name) and x.value.id in common for x in rets)
+            elif ver and not ok and not isinstance(ver[0], (ast.Name, ast.Constant)):
+                strict = False  # an expression this rule does not read
+            rep.check(ok, rule_e, f"{mname}: the result is built with the version equalize_versions returned", m.loc(r), construct=norm(r)[:90], detail="" if ok else "the result's version is not the common version of the operands (it may be None, i.e. inferred from the surviving features): an intersection that keeps only version-1 features is then a version-1 kind whose deprecated features count again, so it is not below its operands and differs from the same intersection taken with declared versions", function=m.qualname, strict=strict)
     rep.count("lattice_results", ne)
     rep.require_min(rule_e, "lattice_results", 2)
 
@@ -1793,6 +1805,24 @@ class _OrderInterp:
             elif isinstance(s, ast.AnnAssign) and isinstance(s.target, ast.Name):
                 if s.value is not None:
                     env[s.target.id] = self._expr(s.value, env)
+            elif isinstance(s, ast.AugAssign) and isinstance(s.target, ast.Name) and isinstance(s.op, (ast.BitOr, ast.BitAnd, ast.Add, ast.Sub)):
+                if s.target.id not in env:
+                    raise self.Unsupported("name " + s.target.id)
+                cur, v = env[s.target.id], self._expr(s.value, env)
+                try:
+                    # in-place on containers, as in Python (aliases see the update)
+                    if isinstance(cur, set) and isinstance(s.op, ast.BitOr):
+                        cur |= v
+                    elif isinstance(cur, list) and isinstance(s.op, ast.Add):
+                        cur.extend(v)
+                    elif isinstance(cur, set) and isinstance(s.op, ast.BitAnd):
+                        cur &= v
+                    elif isinstance(cur, set) and isinstance(s.op, ast.Sub):
+                        cur -= v
+                    else:
+                        env[s.target.id] = {ast.BitOr: lambda: cur | v, ast.BitAnd: lambda: cur & v, ast.Add: lambda: cur + v, ast.Sub: lambda: cur - v}[type(s.op)]()
+                except TypeError:
+                    raise self.Unsupported("augmented assignment on " + type(cur).__name__)
             elif isinstance(s, ast.If):
                 self._block(s.body if self._expr(s.test, env) else s.orelse, env)
             elif isinstance(s, ast.While) and not s.orelse:
@@ -1935,7 +1965,7 @@ class _OrderInterp:
             return set(out) if isinstance(e, ast.SetComp) else out
         if isinstance(e, ast.Call) and isinstance(e.func, ast.Name) and e.func.id in ("all", "any", "set", "len", "list", "tuple") and len(e.args) == 1:
             v = list(self._expr(e.args[0], env))
-            return {"all": all(v), "any": any(v), "set": set(v), "len": len(v), "list": v, "tuple": tuple(v)}[e.func.id]
+            return {"all": all, "any": any, "set": set, "len": len, "list": list, "tuple": tuple}[e.func.id](v)
         if isinstance(e, ast.Call) and isinstance(e.func, ast.Name) and e.func.id == "set" and not e.args:
             return set()
         if isinstance(e, ast.Call) and isinstance(e.func, ast.Name) and e.func.id == "range" and 1 <= len(e.args) <= 3 and not e.keywords:
